@@ -29,6 +29,10 @@ func NewContainer() *Container {
 func (m *Container) AddAccessory(a *Accessory) error {
 	a.UpdateIDs()
 	if a.ID == 0 {
+		// An id which was given to another accessory explicitly is not used again
+		for m.as[m.idCount] != nil {
+			m.idCount++
+		}
 		a.ID = m.idCount
 		m.idCount++
 	}
